@@ -8,8 +8,9 @@ cd "$V"
 sel=("$@"); [ ${#sel[@]} -eq 0 ] && sel=($(ls seeded))
 for d in "${sel[@]}"; do
   id=${d%-*}
+  case $id in C[0-9][0-9]) ;; *) id=C09 ;; esac   # build-split-1 breaks no property by the letter: any check reports it
   git -C /repo apply "$V/seeded/$d/patch.diff" || { echo "$d | cannot apply"; continue; }
   out=$(timeout 1500 ./check $id quick 2>&1 | grep -E 'VIOLATION|quick OK' | head -2 | tr '\n' ' ')
-  git -C /repo checkout -q -- .
+  git -C /repo checkout -q -- . ; git -C /repo clean -fdq
   echo "$d | $out" | cut -c1-200
 done
